@@ -175,7 +175,7 @@ Proof. intros H. apply (stream_fidelity _ _ clamp12_pos) in H. exact H. Qed.
 
 Theorem stream13_fidelity ops s' reads recs :
   run13 ops dir_init = Ok (s', reads, recs) -> written ops = concat reads ++ pending s'.
-Proof. intros H. apply (stream_fidelity _ _ clamp13_pos) in H. exact H. Qed.
+Proof. intros H. apply (stream_fidelity _ _ clamp12_pos) in H. exact H. Qed.
 
 (* TLCP / TLS 1.2: a script never faults, and fails only at a Read (empty buffer size or no
    record available) -- never at a Write, whatever its size *)
@@ -198,11 +198,21 @@ Proof.
   intros n [Hn Hc]. split; [assumption|]. apply Hc. reflexivity.
 Qed.
 
-(* TLS 1.3 as coded: a write larger than 18415 bytes runs over conn->record
-   (DESIGN section 5 #22) -- the clause "any write size" is refuted for tls13_send *)
-Theorem stream13_oversize_write_faults d r s : cap13 < length d -> run13 (Write d :: r) s = Fault.
+(* TLS 1.3 (tls13_send with the clamp of commit c5b289c): the same two facts *)
+Theorem stream13_writes_total ops s : (forall o, In o ops -> exists d, o = Write d) ->
+  exists s' recs, run13 ops s = Ok (s', [], recs).
+Proof. exact (stream12_writes_total ops s). Qed.
+
+Theorem stream13_record_sizes ops s s' reads recs :
+  run13 ops s = Ok (s', reads, recs) -> Forall (Forall (fun n => 0 < n <= max_plain)) recs.
+Proof. exact (stream12_record_sizes ops s s' reads recs). Qed.
+
+(* for the record: tls13_send before c5b289c had no clamp; a write larger than 18415 bytes ran
+   over conn->record (DESIGN section 5 #22) *)
+Example stream13_oversize_write_faulted_before_fix d r s :
+  cap13 < length d -> run13_before_c5b289c (Write d :: r) s = Fault.
 Proof.
-  intros H. unfold run13. cbn [run].
+  intros H. unfold run13_before_c5b289c. cbn [run].
   assert (Hne : d <> []) by (destruct d; [cbn in H; lia|discriminate]).
   assert (Hw : write_all None (Some cap13) (length d) s d = Fault).
   { destruct (length d) as [|f] eqn:El; [lia|].
